@@ -155,7 +155,7 @@ WF_KINDS = ["const", "ramp", "blackman", "interp", "custom", "composite"]
 
 def random_spec(rng, *, n, basis="ising", layout=None, dmin=6.0, spread=0.6, n_pulses=None, max_dur=300, min_dur=16,
                 local=False, dmm=False, slm=False, modulation=False, phase_mode=None, amp_max=12.0, det_max=20.0,
-                wf_kinds=None, shuffle_ids=False, delays=True, has_global=True):
+                wf_kinds=None, shuffle_ids=False, delays=True, has_global=True, lead_delay=0):
     layout = layout or str(rng.choice(["random", "line", "ring", "grid"]))
     pts = positions(rng, n, layout, dmin, spread)
     ids = [f"q{i}" for i in range(n)]
@@ -183,6 +183,8 @@ def random_spec(rng, *, n, basis="ising", layout=None, dmin=6.0, spread=0.6, n_p
     if basis == "xy" and rng.random() < 0.5:
         spec["mag"] = [0.0, 0.0, float(rng.uniform(0.5, 30))] if rng.random() < 0.6 else [float(x) for x in rng.uniform(-5, 5, size=3)]
     n_pulses = n_pulses or int(rng.integers(1, 5))
+    if lead_delay:  # the first pulse (and with it an SLM mask) does not start at t = 0
+        spec["ops"].append({"op": "delay", "ch": chans[0], "dur": int(lead_delay)})
     for _ in range(n_pulses):
         ch = str(rng.choice(chans))
         dur = int(rng.integers(min_dur, max_dur + 1))
